@@ -38,6 +38,7 @@ import PubgrubProofs.SatisfierTheory
 import PubgrubProofs.NoPanic
 import PubgrubProofs.NoPanicCex
 import PubgrubProofs.RangeAnyOrder
+import PubgrubProofs.RangeAnyOrder2
 
 namespace Pubgrub.C05
 open Pubgrub
@@ -148,5 +149,16 @@ theorem C05_range_outcomes (W : World P (Range V) V M) (hW : W.RangesWF) (debug 
   range_outcomes W hW debug fuel root rv s req h hfin
 
 end AnyOrder
+
+/-! ### `Range V` over ANY linear order (second batch of pull-backs, RangeAnyOrder2) -/
+section AnyOrder2
+variable {P V M Pr E : Type} [DecidableEq P] [LinearOrder V] [LE Pr] [DecidableLE Pr]
+
+theorem C05_range_ps_wf (W : World P (Range V) V M) (hW : W.RangesWF) (debug : Bool) (fuel : Nat)
+    (root : P) (rv : V) (x : SolverState P (Range V) V M Pr × Request P (Range V) V M Pr E)
+    (h : Reachable W debug fuel root rv x) (hph : x.2.isFinal = false) : x.1.st.ps.WF :=
+  by apply range_C05_ps_wf (P := P) (V := V) (M := M) (Pr := Pr) (E := E) <;> assumption
+
+end AnyOrder2
 
 end Pubgrub.C05
